@@ -131,6 +131,11 @@ def check(tier: str) -> Result:
     n_b = borrow(res, "c04", {"C04.R1": "C06.R5", "C04.R3a": "C06.R5", "C04.R7": "C06.R5", "C04.R6": "C06.R5"}, envs=TRUSTS_MASK)
     # ---- R6: Connector / MMST routes never share a cell already at reset: starts and targets are drawn without replacement
     n_gen = borrow(res, "c10", {"C10.R2": "C06.R6"}, envs=["connector", "mmst"])
+    # ---- R7: used-once flags (packed / visited / placed) are decisive in the mask (rules/used_rules.py)
+    from . import used_rules
+    n_used = used_rules.add_obligations(res, tree, "C06.R7")
+    if n_used < 4:
+        raise AnalysisError(f"only {n_used} used-flag mask formulas found (hand-confirmed minimum 4: Knapsack, TSP, BinPack, FlatPack)")
     res.analysed = {"environments": ["Knapsack", "CVRP", "TSP", "Sudoku", "GraphColoring"], "mask_soundness_obligations": n_b, "obligations": len(res.obligations)}
     res.assumptions = ["lax.cond semantics; the induction over steps uses C05.R2 (state untouched on invalid actions)",
                        "constraints of BinPack, FlatPack, JobShop, MultiCVRP, Connector, MMST are not decided (runtime geometry / scheduling)"]
